@@ -20,3 +20,7 @@ def run(chk):
     F.rule_data_presence_witness(chk, chk.repo, "C04.6")
     X.rule_codec_pairs(chk, "C04.7")
     X.rule_metadata_keyed_by_own_query(chk, "C04.8")
+    X.rule_store_metadata_fresh(chk, "C04.9")
+    X.rule_state_clone_deep(chk, "C04.10")
+    from .c10 import rule_type_copy
+    rule_type_copy(chk, "C04.11")
